@@ -126,7 +126,7 @@ def list_filter(c, methods_tla):
         except ValueError:
             pass
     c.tlc("Pipeline", "PipelineCases", "cases_list.cfg", workers=1, timeout=300, line_cb=on_case, files={"MethodsGen.tla": methods_tla}, name="cases-list")
-    if len(cases) != 124:
+    if len(cases) != 484:
         raise Broken("ListNamespaces case enumeration failed (%d)" % len(cases))
     cases.sort(key=lambda d: (d["transport"], d["mapping"], len(d["shape"]), d["shape"]))
     for i, d in enumerate(cases):
@@ -242,7 +242,7 @@ def run(c, a):
             for o in ns:
                 if o["root"]["dir"] != "req" or o["root"]["stream"] or o["root"]["method"] in ALWAYS_DENIED:
                     continue
-                for val in ("ns-allowed", "ns-forbidden", "ns-remote-ok", "ns-remote-bad"):
+                for val in ("ns-allowed", "ns-forbidden", "ns-remote-ok", "ns-remote-bad", "Ns-Allowed", "ns-allowed "):
                     for bypass in (False, True):
                         for variant in (("", "tail") if "events" in o["path"] else ("",)) + (("json", "dirty2") if o["inblob"] else ()) + ("fillbad",):
                             d = dict(o)
